@@ -31,6 +31,7 @@ func runC18(c *Ctx) {
 	now := uint32(time.Now().Unix())
 	n := c.Scale(400, 8000)
 	extras := []int{0, 1, 2, 254, 255, 256, 257, 300}
+	done := 0 // messages that got past the generator's filter: the directed cases below must not depend on its luck
 	for i := 0; i < n; i++ {
 		g := genMsg(r, msgOpts{mode: r.Intn(2), pool: r.Chance(70), maxAn: 3, maxNs: 2, maxEx: 2, optPct: 30})
 		m, err := unpackGen(g)
@@ -38,9 +39,10 @@ func runC18(c *Ctx) {
 			continue
 		}
 		m.Compress = r.Bool()
-		if i%40 == 0 {
+		done++
+		if done%40 == 1 {
 			// many additional records (the ARCOUNT high octet matters from 256 on)
-			k := extras[(i/40)%len(extras)]
+			k := extras[(done/40)%len(extras)]
 			m.Extra = nil
 			for j := 0; j < k; j++ {
 				m.Extra = append(m.Extra, &dns.A{Hdr: dns.RR_Header{Name: fmt.Sprintf("h%d.example.", j), Rrtype: dns.TypeA, Class: 1, Ttl: 1}, A: []byte{10, 0, byte(j >> 8), byte(j)}})
